@@ -36,7 +36,21 @@ enum Op {
     Meta(usize, usize),
     ScaleConvert(usize, usize),
     Approx(usize),
+    /// `Converter::find_unit` — the one `&self` entry point every parse with units goes through
+    FindUnit(usize),
+    /// convert a quantity to the other system and fit it
+    ConvertQ(usize),
+    /// a small parse whose analysis looks up several units (timers, references)
+    UnitParse(usize),
 }
+
+const UNITS: &[&str] = &["g", "min", "ml", "kg", "tsp", "h", "cup", "lb", "nope", "°C", "s", "l"];
+const QUANTS: &[(f64, &str)] = &[(250.0, "g"), (1.5, "l"), (2.0, "cup"), (12.0, "oz"), (90.0, "min"), (3.0, "tsp")];
+const UNIT_INPUTS: &[&str] = &[
+    "Boil @water{1%l} for ~{10%min} then add @&water{200%ml}.\n",
+    "Mix @flour{200%g} and @&flour{1%kg}, rest ~{1%h}, bake ~{30%min}.\n",
+    "@butter{2%tbsp} @&butter{1%tsp} ~{45%s} @sugar{1%cup} @&sugar{100%g}\n",
+];
 
 const APPROX: &[(f64, f32, u8, u32)] = &[(0.333, 0.05, 4, 5), (1.26, 0.1, 8, 5), (2.74, 0.05, 16, 100), (0.5, 0.0, 2, 0)];
 
@@ -61,6 +75,18 @@ fn run(parsers: &[CooklangParser], op: Op) -> String {
                 None => "none".into(),
             }
         }
+        Op::FindUnit(k) => {
+            let u = parsers[0].converter().find_unit(UNITS[k]);
+            format!("{:?}", u.map(|u| (u.symbol().to_string(), u.physical_quantity)))
+        }
+        Op::ConvertQ(k) => {
+            let (v, u) = QUANTS[k];
+            let mut q = cooklang::ScaledQuantity::new(cooklang::Value::Number(v.into()), Some(u.to_string()));
+            let r = q.convert(if k % 2 == 0 { System::Imperial } else { System::Metric }, parsers[0].converter());
+            let fit = q.fit(parsers[0].converter());
+            format!("{r:?} {fit:?} {q:?}")
+        }
+        Op::UnitParse(i) => format!("{:?}", parsers[0].parse(UNIT_INPUTS[i])),
         Op::Approx(k) => {
             let (v, a, d, w) = APPROX[k];
             format!("{:?}", Number::new_approx(v, a, d, w))
@@ -77,18 +103,34 @@ fn main() {
     }
     let seed: u64 = args.get(2).and_then(|s| s.parse().ok()).unwrap_or(0);
     let full = shape == "full";
-    let parsers: Arc<Vec<CooklangParser>> = Arc::new(if full {
+    let conv = shape == "conv";
+    let parsers: Arc<Vec<CooklangParser>> = Arc::new(if full || conv {
         vec![CooklangParser::extended(), CooklangParser::new(Extensions::COMPAT, Converter::empty())]
     } else {
         vec![CooklangParser::new(Extensions::all(), Converter::empty()), CooklangParser::canonical()]
     });
-    let nthreads = 2 + (mix(seed, 1) % 2) as usize;
+    let nthreads = if conv { 3 } else { 2 + (mix(seed, 1) % 2) as usize };
     let barrier = Arc::new(Barrier::new(nthreads));
     let mut plans: Vec<Vec<Op>> = Vec::new();
     for t in 0..nthreads {
         let mut ops = Vec::new();
         // the first operation of every thread reaches the lazily built fraction table
         ops.push(Op::Approx((mix(seed, 100 + t as u64) % APPROX.len() as u64) as usize));
+        if conv {
+            // many short operations on the shared converter: contention on whatever it
+            // shares behind `&self`
+            for k in 0..14 {
+                let r = mix(seed, 3000 + (t * 32 + k) as u64);
+                ops.push(match r % 8 {
+                    0..=4 => Op::FindUnit(((r >> 8) % UNITS.len() as u64) as usize),
+                    5 => Op::ConvertQ(((r >> 8) % QUANTS.len() as u64) as usize),
+                    6 => Op::UnitParse(((r >> 8) % UNIT_INPUTS.len() as u64) as usize),
+                    _ => Op::Approx(((r >> 8) % APPROX.len() as u64) as usize),
+                });
+            }
+            plans.push(ops);
+            continue;
+        }
         let n = 2 + (mix(seed, 200 + t as u64) % 2) as usize;
         for k in 0..n {
             let r = mix(seed, 1000 + (t * 16 + k) as u64);
